@@ -169,13 +169,25 @@ def isCommaHeader (n : Bytes) : Bool :=
 /-- every occurrence of a comma-list handshake header is ASCII (otherwise `split_comma_header` raises) -/
 def commaHeadersAscii (hs : Headers) : Prop := ∀ h ∈ hs, isCommaHeader h.1 = true → isAscii h.2 = true
 
+/-- the version an HTTP/2 / HTTP/3 carrier states (`H2Protocol` passes `"2"`, `H3Protocol` `"3"`); every other string comes from
+    the request line of an HTTP/1 connection (h11 hands over the two digits around the dot, see `H11Version`) -/
+def multiplexedVersion (version : String) : Prop := version = "2" ∨ version = "3"
+
+instance (version : String) : Decidable (multiplexedVersion version) := by unfold multiplexedVersion; exact inferInstance
+
+/-- what `h11` hands over as `request.http_version` (its request-line pattern is `HTTP/[0-9]\.[0-9]`): one digit, a dot, one digit
+    — `1.1`, but also `1.2`, `2.0`, `9.9`, `0.9` -/
+def H11Version (version : String) : Prop :=
+  ∃ a b : Char, a.isDigit = true ∧ b.isDigit = true ∧ version = String.ofList [a, '.', b]
+
 /-- **the property's notion of a valid handshake**, read off the header list:
-    HTTP/1.1: a key, a `Connection` list with an `upgrade` token (any case), `Upgrade: websocket` (any case),
-    version exactly `13`; above 1.1 (HTTP/2 extended CONNECT): version exactly `13`; below 1.1: never. -/
+    never below 1.1; version exactly `13`; and — on every carrier that is not a multiplexed one, i.e. for *every* version string an
+    HTTP/1 connection can state, not only `1.1` — a key, a `Connection` list with an `upgrade` token (any case) and
+    `Upgrade: websocket` (any case).  On HTTP/2 / HTTP/3 (extended CONNECT) only the version header counts. -/
 def validSpec (version : String) (hs : Headers) : Prop :=
   ¬ version < "1.1" ∧
   lastHeader "sec-websocket-version".b hs = some "13".b ∧
-  (version = "1.1" →
+  (¬ multiplexedVersion version →
     (lastHeader "sec-websocket-key".b hs).isSome = true ∧
     (∃ v, lastHeader "connection".b hs = some v ∧ ∃ t ∈ tokens v, Bytes.lower t = "upgrade".b) ∧
     (∃ u, lastHeader "upgrade".b hs = some u ∧ Bytes.lower u = "websocket".b))
